@@ -212,14 +212,28 @@ where
         let chunk_size: usize = circuit.output_size().div_ceil(threads);
 
         thread::scope(|scope| {
+            #[cfg(poulpy_verif)]
+            let mut verif_spawned: usize = 0;
             for (thread_idx, (scratch_thread, out_chunk)) in scratches
                 .iter_mut()
                 .zip(out[..circuit.output_size()].chunks_mut(chunk_size))
                 .enumerate()
             {
+                #[cfg(poulpy_verif)]
+                {
+                    verif_spawned += 1;
+                }
                 // Capture chunk + thread scratch by move
                 scope.spawn(move || {
+                    #[cfg(poulpy_verif)]
+                    let _verif_done = poulpy_hal::verif::YieldDone::new(poulpy_hal::verif::YIELD_SITE_EVAL, thread_idx);
                     for (idx, out_i) in out_chunk.iter_mut().enumerate() {
+                        #[cfg(poulpy_verif)]
+                        poulpy_hal::verif::yield_point(
+                            poulpy_hal::verif::YIELD_SITE_EVAL,
+                            thread_idx,
+                            thread_idx * chunk_size + idx,
+                        );
                         let (nodes, state_size) = circuit.get_circuit(thread_idx * chunk_size + idx);
 
                         if state_size == 0 {
@@ -230,6 +244,8 @@ where
                     }
                 });
             }
+            #[cfg(poulpy_verif)]
+            poulpy_hal::verif::yield_spawned(poulpy_hal::verif::YIELD_SITE_EVAL, verif_spawned);
         });
 
         for out_i in out.iter_mut().skip(circuit.output_size()) {
